@@ -32,7 +32,7 @@ ASSUMPTIONS = [
     'could not be decided offline and are unjudged as well',
     'the tolerated differences are exactly those of the project\'s compare_output (vendored copy)',
 ]
-KINDS = {'corpus': (288, 864, 0), 'compiled': (18, 44, 1), 'descr': (60, 60, 2), 'dwdescr': (40, 40, 1), 'generated': (120, 1500, 4)}
+KINDS = {'corpus': (288, 864, 0), 'compiled': (18, 52, 1), 'descr': (60, 60, 2), 'dwdescr': (40, 40, 1), 'generated': (120, 1500, 4)}
 FLOOR = {'quick': 150, 'thorough': 600}
 CASE_TIMEOUT = 1200
 OPTIONS = ['-e', '-d', '-s', '-n', '-r', '-x.text', '-p.shstrtab', '-V', '--debug-dump=info', '--debug-dump=decodedline',
@@ -221,7 +221,7 @@ def judge(sh, what, path, option, ident, kind):
 GCC_CFG = [(v, o, k) for v in (2, 3, 4, 5) for o in ('-O0', '-O2') for k in ('so', 'o')]
 CLANG_TARGETS = [('x86_64-linux-gnu', True), ('i386-linux-gnu', True), ('arm-linux-gnueabi', True), ('aarch64-linux-gnu', True),
                  ('mips-linux-gnu', False), ('mips64-linux-gnuabi64', False), ('powerpc64le-linux-gnu', False), ('s390x-linux-gnu', False)]
-CLANG_CFG = [(t, regs, v) for t, regs in CLANG_TARGETS for v in (2, 4)]
+CLANG_CFG = [(t, regs, v) for t, regs in CLANG_TARGETS for v in (2, 4)] + [(t, regs, 5) for t, regs in CLANG_TARGETS[:4]]
 COMPILED_OPTS = ['-e', '-s', '-r', '-n', '--debug-dump=info', '--debug-dump=decodedline', '--debug-dump=frames',
                  '--debug-dump=frames-interp', '--debug-dump=aranges', '--debug-dump=loc', '--debug-dump=Ranges', '--debug-dump=pubnames']
 
@@ -251,6 +251,9 @@ def run_compiled(idx, rng, sh):
             sh.skip('%s cannot build %s' % (cmd[0], ident))
             return
         for option in COMPILED_OPTS:
+            if cfg[0] == 'clang' and ver == 5 and option == '--debug-dump=info':
+                sh.skip('clang DWARF 5 uses the index forms (strx/addrx/loclistx/rnglistx), which have no entry in the clone\'s attribute description map')
+                continue
             if not regs and option in ('--debug-dump=loc', '--debug-dump=frames', '--debug-dump=frames-interp'):
                 sh.skip('register names of this machine are outside the clone\'s tables')
                 continue
@@ -880,7 +883,7 @@ def run_dwdescr(idx, rng, sh):
 
 # ---------------------------------------------------------------- generated files (envelope generators)
 def gen_families():
-    from ..gen import dynobj
+    from ..gen import dynobj, dwenv
     import elftools.elf.enums as E
 
     def relocs(rng):
@@ -890,7 +893,8 @@ def gen_families():
     return [('versions', ['-V', '-s', '-d', '-e'], dynobj.gen_versions), ('notes', ['-n'], dynobj.gen_notes_file),
             ('symtab', ['-s', '-e'], dynobj.gen_symtab_file), ('relocs', ['-r'], relocs),
             ('layout', ['-e'], dynobj.gen_layout_file),
-            ('dumps', ['-x.text', '-p.comment', '-x.comment', '-p.text', '-x.empty', '-x.bss', '-p.shstrtab'], dynobj.gen_dump_file)]
+            ('dumps', ['-x.text', '-p.comment', '-x.comment', '-p.text', '-x.empty', '-x.bss', '-p.shstrtab'], dynobj.gen_dump_file),
+            ('lines', ['--debug-dump=decodedline'], dwenv.gen_lines_file)]
 
 
 def mask(line):
